@@ -1,53 +1,17 @@
-(* Driver for the extracted Coq models: reads one operation per line on stdin, prints one
-   canonical result line per operation on stdout.  No logic of its own beyond parsing/printing. *)
-open Model
-
-(* ---- conversions between OCaml ints and the extracted Coq numbers ---- *)
-let rec pos_of_int (n : int) : positive =
-  if n = 1 then XH else if n land 1 = 0 then XO (pos_of_int (n lsr 1)) else XI (pos_of_int (n lsr 1))
-let n_of_int (n : int) : n = if n = 0 then N0 else Npos (pos_of_int n)
-let rec int_of_pos (p : positive) : int =
-  match p with XH -> 1 | XO q -> 2 * int_of_pos q | XI q -> 2 * int_of_pos q + 1
-let int_of_n (x : n) : int = match x with N0 -> 0 | Npos p -> int_of_pos p
-
-let bytes_of_hex (s : string) : n list =
-  if s = "-" then [] else
-  let len = String.length s / 2 in
-  List.init len (fun i -> n_of_int (int_of_string ("0x" ^ String.sub s (2*i) 2)))
-let hex_of_bytes (l : n list) : string =
-  if l = [] then "-" else String.concat "" (List.map (fun b -> Printf.sprintf "%02x" (int_of_n b)) l)
-
-let dbg = ref true
-
-let codec_line (toks : string list) : string =
-  match toks with
-  | "enc" :: r :: ins ->
-      hex_of_bytes (Model.encode (bytes_of_hex r) (List.map bytes_of_hex ins))
-      |> fun s -> "ok " ^ s
-  | ["dec"; r; d] ->
-      (match Model.decode !dbg (bytes_of_hex r) (bytes_of_hex d) with
-       | Ok outs -> "ok " ^ (if outs = [] then "." else String.concat "," (List.map hex_of_bytes outs))
-       | Err -> "err"
-       | Panic -> "panic")
-  | ["decu"; r; d] ->
-      (match Model.decode_unvalidated !dbg (bytes_of_hex r) (bytes_of_hex d) with
-       | Ok outs -> "ok " ^ (if outs = [] then "." else String.concat "," (List.map hex_of_bytes outs))
-       | Err -> "err"
-       | Panic -> "panic")
-  | _ -> "badop"
-
+(* Driver for the extracted Coq models: `driver <level> <debug|release>` reads one operation per
+   line on stdin and prints one canonical result line per operation.  Each level lives in its own
+   lvl_<level>.ml (parsing/printing only; all logic is extracted Coq). *)
 let () =
   let level = if Array.length Sys.argv > 1 then Sys.argv.(1) else "codec" in
-  if Array.length Sys.argv > 2 then dbg := (Sys.argv.(2) = "debug");
+  let dbg = not (Array.length Sys.argv > 2 && Sys.argv.(2) = "release") in
+  let handle : string list -> string = match level with
+    | "codec" -> Lvl_codec.handle dbg
+    (* LEVELS: one line per level, keep this marker *)
+    | _ -> (fun _ -> "badlevel") in
   (try
     while true do
       let line = input_line stdin in
       let toks = String.split_on_char ' ' (String.trim line) |> List.filter (fun s -> s <> "") in
-      if toks <> [] then begin
-        let out = match level with
-          | "codec" -> codec_line toks
-          | _ -> "badlevel" in
-        print_endline out
-      end
+      if toks <> [] then print_endline (try handle toks with Stack_overflow -> "modelcrash stack" | Not_found -> "modelcrash notfound" | Failure m -> "modelcrash " ^ m)
     done
   with End_of_file -> ())
